@@ -406,6 +406,9 @@ func init() {
 		}
 		fmt.Fprintf(&sb, "def invoiceTypes : List String := %s\n\n", leanStrList(types))
 
+		// key sets published by the schemas (C18: payment means, payment terms, note keys)
+		sb.WriteString(defsKeySets(root))
+
 		fmt.Fprintf(&sb, "def regimes : List Regime := [%s]\n", strings.Join(regNames, ", "))
 		fmt.Fprintf(&sb, "def addons : List Addon := [%s]\n", strings.Join(addonNames, ", "))
 		fmt.Fprintf(&sb, "def catalogues : List Catalogue := [%s]\n\n", strings.Join(catNames, ", "))
